@@ -295,7 +295,7 @@ def _scarg_map(a):
 class C07(Check):
     pid = "C07"
     quick_cases = 2600
-    props_modules = ["Verif.C07.Props", "Verif.C07.PropsApi", "Verif.C07.Translated"]
+    props_modules = ["Verif.C07.Props", "Verif.C07.PropsApi", "Verif.C07.Translated", "Verif.C07.TranslatedComponents"]
 
     def translation_specs(self):
         """util._bfs / util._connected_components as their callers use them: set-valued adjacency, whose (unknown)
